@@ -179,7 +179,7 @@ def derived(hs, parent, d):
     return ['grid'], d
 
 
-def observe(hs, g, R, codes, rng=None, full=False):
+def observe(hs, g, R, codes, rng=None, full=False, lookups=True):
     """Observation events right after an operation.  With rng: a sample of slices (all other kinds
     always in full for small grids)."""
     obs = []
@@ -224,7 +224,8 @@ def observe(hs, g, R, codes, rng=None, full=False):
             obs.append({'k': 'contains', 'row': rid, 'v': (o in g)})
         except Exception as e:
             obs.append({'k': 'contains', 'row': rid, 'v': type(e).__name__})
-    obs.extend(observe_lookups(hs, g, R, codes))
+    if lookups:
+        obs.extend(observe_lookups(hs, g, R, codes))
     if rng is not None and not full:
         # extended slices, index() and count() (random histories only)
         for kind, sl in (('rev', slice(None, None, -1)), ('step2', slice(None, None, 2))):
@@ -540,6 +541,7 @@ def random_history(hs, rng, spec, codes, length):
     non_ids = [i for i, d in enumerate(spec, 1) if d['t'] != 'dict']
     evs = []
     parked = None      # the other live grid: the parent of the last derivation (or the derived grid after a switch)
+    quiet = 0          # number of coming events after which no lookup by id is observed
     names = ['append'] * 5 + ['insert'] * 4 + ['setitem'] * 4 + ['delitem'] * 3 + ['delslice', 'pop', 'pop', 'remove',
              'reverse', 'extend', 'extend', 'iadd', 'slice', 'slice', 'filter_id', 'filter_limit', 'clear']
     for _ in range(length):
@@ -555,7 +557,8 @@ def random_history(hs, rng, spec, codes, length):
                 o['ver'] = str(g.version)
             except Exception as e:
                 o['rows'] = [-9]; o['ver'] = type(e).__name__
-            o['obs'] = observe(hs, g, R, codes, rng=rng)
+            o['obs'] = observe(hs, g, R, codes, rng=rng, lookups=(quiet == 0))
+            quiet = max(0, quiet - 1)
             evs.append(o)
             continue
         def RW():
@@ -594,7 +597,14 @@ def random_history(hs, rng, spec, codes, length):
             o['ver'] = str(g2.version)
         except Exception as e:
             o['rows'] = [-9]; o['ver'] = type(e).__name__
-        o['obs'] = observe(hs, g2, R, codes, rng=rng)
+        # a lookup by id builds the id index as a side effect: for a while after a grid was derived (and in some
+        # stretches at random) no lookup is made, so that mutators also meet grids whose index was never built
+        if res == ['grid'] and rng.random() < 0.6:
+            quiet = rng.randint(1, 3)
+        elif quiet == 0 and rng.random() < 0.04:
+            quiet = rng.randint(1, 4)
+        o['obs'] = observe(hs, g2, R, codes, rng=rng, lookups=(quiet == 0))
+        quiet = max(0, quiet - 1)
         evs.append(o)
         if res == ['grid']:
             parked = g
